@@ -606,7 +606,7 @@ impl Check for GCheck {
     fn assumptions(&self) -> Vec<String> {
         vec![
             "the generator's symbol table implements the language's scoping and typing rules; llvm-tblgen 14 audits every sample (clean accepted, faulty rejected) on the fragment it supports".into(),
-            "not generated because ambiguous under the statement: a parent's template argument used in an heir, a use of a field after a let override of it, cross-kind shadowing, named template arguments".into(),
+            "not generated because ambiguous under the statement: a parent's template argument used in an heir, a use of a field after a let override of it, named template arguments, and the cross-kind shadowings on which llvm-tblgen 14 (fields and template arguments before block variables) and \"the innermost declaration wins\" disagree - generated are: defvar over defvar, a field / template argument over a GLOBAL defvar, a bang-operator variable over a defvar".into(),
         ]
     }
     fn unit_cpu_budget_s(&self) -> f64 {
